@@ -12,7 +12,11 @@ THEOREMS = ["Drand.Beacon.Transition." + t for t in [
     "c07_terms_pinned", "c07_period_change_refused", "c07_scheme_change_refused", "c07_scheme_unchecked_counterexample",
     "c07_tampered_period_pipeline"]] + \
     ["Drand.DKG.Pedersen." + t for t in ["c07_newshare_eq_eval", "c07_secret_preserved", "c07_pk_preserved", "c07_new_threshold_signs", "c07_old_share_off_new_poly"]] + \
-    ["Drand.Net.Reshare." + t for t in ['tie_group_node_lookup', 'tie_broadcast_recipients', 'tie_aggregator_threshold_in_loop', 'tie_transition_skip', 'c03_member_lookup_exact', 'c03_hole_is_not_member', 'c03_admitted_is_member', 'c03_nonmember_index_never_counts', 'c07_old_epoch_never_counts', 'c07_held_members_run', 'c07_beacon_needs_new_members', 'c07_registration_any_time', 'c07_registration_partial', 'c07_switch_any_time', 'c07_switch_partial', 'told_run', 'c07_late_registration_counterexample', 'c07_reshare_step_progress', 'c07_transition_round_produced']]
+    ["Drand.Net.Reshare." + t for t in ['tie_group_node_lookup', 'tie_broadcast_recipients', 'tie_aggregator_threshold_in_loop', 'tie_transition_skip', 'c03_member_lookup_exact', 'c03_hole_is_not_member', 'c03_admitted_is_member', 'c03_nonmember_index_never_counts', 'c07_old_epoch_never_counts', 'c07_held_members_run', 'c07_beacon_needs_new_members', 'c07_registration_any_time', 'c07_registration_partial', 'c07_switch_any_time', 'c07_switch_partial', 'told_run', 'c07_late_registration_counterexample', 'c07_reshare_step_progress', 'c07_transition_round_produced',
+                                        'sane_run', 'sane_init', 'c07_quiet_of_reachable', 'c07_told_is_punctual', 'c07_quiet_counterexample', 'c07_quiet_of_healthy',
+                                        'c07_level', 'c07_fair_tick', 'c07_fair_round', 'c07_catch_progress', 'c07_chain_continues', 'c07_round_produced',
+                                        'c07_settled_any_time', 'c07_settled_partial', 'c07_no_skip', 'c07_heads_monotone',
+                                        'c07_quiet_of_reachable_repaired', 'replace_apply', 'c07_quiet_of_sound', 'c07_fair_tick_repaired', 'c07_chain_continues_repaired', 'cx_sound']]
 TRUSTED = ["Lean 4 kernel; axioms per theorem under coverage.axioms",
            "PedersenSpec (hypothesis): kyber's resharing outputs the Lagrange combination of the dealers' reshaped shares (c07_pk_preserved is proved from that); "
            "agreement of all nodes on the dealer set under arbitrary schedules is sampled by the differential runs only",
